@@ -1,0 +1,113 @@
+//go:build verif
+
+// Contracts for the deductive verifier in /verif (govc). This file contains
+// comments only; it is compiled only under the build tag `verif`.
+
+package proxyproto
+
+// ---- specification vocabulary (taken from the PROXY protocol text) ----
+
+//@ define crlfAt(s seq, i int) bool = s[i] == 13 && s[i+1] == 10
+//@ define firstCRLF(s seq, b int, p int) bool = crlfAt(s, b+p) && forall j int :: 0 <= j && j < 108 ==> (j < p ==> !crlfAt(s, b+j))
+//@ define isV2sig(s seq, b int) bool = s[b] == 13 && s[b+1] == 10 && s[b+2] == 13 && s[b+3] == 10 && s[b+4] == 0 && s[b+5] == 13 && s[b+6] == 10 && s[b+7] == 81 && s[b+8] == 85 && s[b+9] == 73 && s[b+10] == 84 && s[b+11] == 10
+//@ define v2len(s seq, b int) int = 256*s[b+14] + s[b+15]
+//@ define isV1sig(s seq, b int) bool = s[b] == 80 && s[b+1] == 82 && s[b+2] == 79 && s[b+3] == 88 && s[b+4] == 89 && s[b+5] == 32
+//@ define isTCP4(s seq, b int) bool = s[b+6] == 84 && s[b+7] == 67 && s[b+8] == 80 && s[b+9] == 52
+//@ define isTCP6(s seq, b int) bool = s[b+6] == 84 && s[b+7] == 67 && s[b+8] == 80 && s[b+9] == 54
+//@ define isUNKNOWN(s seq, b int) bool = s[b+6] == 85 && s[b+7] == 78 && s[b+8] == 75 && s[b+9] == 78 && s[b+10] == 79 && s[b+11] == 87 && s[b+12] == 78
+//@ define v1minLen(s seq, b int, p int) bool = (isTCP4(s, b) ==> p >= 30) && (isTCP6(s, b) ==> p >= 20)
+
+//@ globalinv len(V1Identifier) == 6 && V1Identifier[0] == 80 && V1Identifier[1] == 82 && V1Identifier[2] == 79 && V1Identifier[3] == 88 && V1Identifier[4] == 89 && V1Identifier[5] == 32
+//@ globalinv len(V2Identifier) == 12 && V2Identifier[0] == 13 && V2Identifier[1] == 10 && V2Identifier[2] == 13 && V2Identifier[3] == 10 && V2Identifier[4] == 0 && V2Identifier[5] == 13 && V2Identifier[6] == 10 && V2Identifier[7] == 81 && V2Identifier[8] == 85 && V2Identifier[9] == 73 && V2Identifier[10] == 84 && V2Identifier[11] == 10
+
+// ---- v1 ----
+
+//@ func readUntilCRLF
+//@ property C08 C12
+//@ requires 1 <= idx && idx <= 107 && len(buf) >= 108
+//@ requires forall k int :: 0 <= k && k < 108 ==> (k < idx ==> buf[k] == stream(r)[pos(r) - idx + k])
+//@ modifies pos(r), buf[*]
+//@ ensures pos(r) <= old(pos(r)) + 107 - idx
+//@ ensures err == nil ==> len(result) == pos(r) - old(pos(r)) + idx - 2 && base(result) == base(buf) && off(result) == off(buf)
+//@ ensures err == nil ==> len(result) >= idx - 1 && len(result) <= 105
+//@ ensures err == nil ==> crlfAt(stream(r), pos(r) - 2)
+//@ ensures err == nil ==> forall j int :: 0 <= j && j < 108 ==> (idx - 1 <= j && j < len(result) ==> !crlfAt(stream(r), old(pos(r)) - idx + j))
+//@ ensures err == nil ==> forall k int :: 0 <= k && k < 108 ==> (k < len(result) ==> result[k] == stream(r)[old(pos(r)) - idx + k])
+//@ loop 0:
+//@   invariant idx0 <= idx && idx <= 107
+//@   invariant pos(r) == old(pos(r)) + idx - idx0
+//@   invariant forall k int :: 0 <= k && k < 108 ==> (k < idx ==> buf[k] == stream(r)[old(pos(r)) - idx0 + k])
+//@   invariant forall j int :: 0 <= j && j < 108 ==> (idx0 - 1 <= j && j < idx - 1 ==> !crlfAt(stream(r), old(pos(r)) - idx0 + j))
+//@   decreases 107 - idx
+
+//@ contract splitFn(pos int, buf []byte) (err error)
+//@ modifies *
+
+//@ func split
+//@ property C08 C12
+//@ satisfies fn splitFn
+//@ modifies *
+
+//@ func parseV1Header$1
+//@ property C08 C12
+//@ implements splitFn
+//@ modifies *
+
+// A parsed header that is not LOCAL/UNKNOWN always carries both addresses.
+//@ pred hdrOK(h *Header) = !h.IsLocal ==> h.Source != nil && h.Destination != nil
+
+//@ func parseV1Header
+//@ property C08 C12
+//@ requires len(buf) >= 11
+//@ modifies *
+//@ ensures err == nil ==> result != nil && fresh(result) && !result.IsLocal && result.Source != nil && result.Destination != nil && result.Version == 1
+
+// readV1Header: buf[0:13] already holds the first 13 bytes of the stream.
+// Exact hand-over (L8.2): for every line whose first CRLF is at offset p (from
+// the start of the header) and that is at least as long as the shortest line
+// of its family, exactly p+2 bytes are consumed.
+//@ func readV1Header
+//@ property C08 C12
+//@ requires r != nil && len(buf) >= 232
+//@ requires forall k int :: 0 <= k && k < 13 ==> buf[k] == stream(r)[pos(r) - 13 + k]
+//@ modifies *, pos(r)
+//@ ensures err == nil ==> result != nil && hdrOK(result)
+//@ ensures pos(r) <= old(pos(r)) + 94
+//@ ensures forall p int :: 13 <= p && p < 106 ==> (err == nil && firstCRLF(stream(r), old(pos(r)) - 13, p) && v1minLen(stream(r), old(pos(r)) - 13, p) ==> pos(r) == old(pos(r)) - 13 + p + 2)
+
+// ---- v2 ----
+
+//@ func readV2Header
+//@ property C08 C12
+//@ requires r != nil && len(buf) >= 16
+//@ modifies *, pos(r)
+//@ ensures err == nil ==> result != nil && hdrOK(result)
+//@ ensures pos(r) <= old(pos(r)) + 3 + 256*stream(r)[old(pos(r)) + 1] + stream(r)[old(pos(r)) + 2]
+//@ ensures err == nil ==> pos(r) == old(pos(r)) + 3 + 256*stream(r)[old(pos(r)) + 1] + stream(r)[old(pos(r)) + 2]
+//@ ensures err == nil ==> 256*stream(r)[old(pos(r)) + 1] + stream(r)[old(pos(r)) + 2] <= 2048
+
+//@ func ReadV2Header
+//@ property C08 C12
+//@ requires r != nil
+//@ modifies *, pos(r)
+//@ ensures err == nil ==> result != nil && hdrOK(result)
+//@ ensures err == nil ==> pos(r) == old(pos(r)) + 16 + v2len(stream(r), old(pos(r)))
+//@ ensures pos(r) <= old(pos(r)) + 16 + v2len(stream(r), old(pos(r)))
+
+// ReadHeader (L8.1, L8.2, L8.3): consumes exactly the header, never a payload byte.
+//@ func ReadHeader
+//@ property C08 C12
+//@ requires r != nil
+//@ modifies *, pos(r)
+//@ ensures err == nil ==> result != nil && hdrOK(result)
+//@ ensures err == nil ==> isV2sig(stream(r), old(pos(r))) || isV1sig(stream(r), old(pos(r)))
+//@ ensures isV2sig(stream(r), old(pos(r))) ==> pos(r) <= old(pos(r)) + 16 + v2len(stream(r), old(pos(r)))
+//@ ensures isV2sig(stream(r), old(pos(r))) && err == nil ==> pos(r) == old(pos(r)) + 16 + v2len(stream(r), old(pos(r)))
+//@ ensures !isV2sig(stream(r), old(pos(r))) ==> pos(r) <= old(pos(r)) + 107
+//@ ensures forall p int :: 13 <= p && p < 106 ==> (err == nil && !isV2sig(stream(r), old(pos(r))) && firstCRLF(stream(r), old(pos(r)), p) && v1minLen(stream(r), old(pos(r)), p) ==> pos(r) == old(pos(r)) + p + 2)
+
+//@ func (*Header).ParseTLVs
+//@ property C08 C12
+//@ requires h != nil
+//@ loop 0:
+//@   invariant 0 <= offset
